@@ -112,7 +112,11 @@ func runC06(c *Ctx) {
 
 	// (nullpages) + (final)
 	rule = "C06.nullpages"
-	if obj := p.LookupFunc("binarySearch"); c.Anchor(rule, "binarySearch", obj != nil) {
+	for _, searchFn := range []string{"binarySearch", "linearSearch"} {
+		obj := p.LookupFunc(searchFn)
+		if !c.Anchor(rule, searchFn, obj != nil) {
+			continue
+		}
 		fn := p.SSAFunc(obj)
 		fns := append([]*ssa.Function{fn}, fn.AnonFuncs...)
 		for _, f := range fns {
